@@ -4,8 +4,9 @@ Only the property text and a scratch worktree path are handed over (nothing from
 import json, sys
 pid = sys.argv[1]
 wt = sys.argv[2]
-round2 = len(sys.argv) > 3 and sys.argv[3] in ('2', '3', '4', '5', '6', '7')
-round7 = len(sys.argv) > 3 and sys.argv[3] == '7'
+round2 = len(sys.argv) > 3 and sys.argv[3] in ('2', '3', '4', '5', '6', '7', '8')
+round7 = len(sys.argv) > 3 and sys.argv[3] in ('7', '8')
+round8 = len(sys.argv) > 3 and sys.argv[3] == '8'
 round6 = len(sys.argv) > 3 and sys.argv[3] == '6'
 round5 = len(sys.argv) > 3 and sys.argv[3] == '5'
 round4 = len(sys.argv) > 3 and sys.argv[3] == '4'
@@ -79,4 +80,9 @@ if round7:
     text = text.replace('What I need from you: TWO different changes', extra + '\n\nWhat I need from you: TWO different changes')
     text = text.replace('_out2/', '_out7/').replace('m3', 'm13').replace('m4', 'm14')
     text += '\nKeep your progress messages short; do not paste whole files into your replies.'
+if round8:
+    # short round: one change only (m17), same brief as round 7
+    text = text.replace('_out7/', '_out8/').replace('m13', 'm17')
+    text = text.replace('TWO different changes (call them m17 and m14), each an independent small patch', 'ONE change (call it m17; ignore every mention of a second change m14 below), an independent small patch')
+    text += '\nYou have about 10 minutes: prefer a simple, well-verified change over an elaborate one.'
 print(text)
